@@ -7,6 +7,7 @@ import (
 	"fmt"
 	"os"
 	"runtime"
+	"sort"
 	"strconv"
 	"strings"
 	"time"
@@ -979,6 +980,30 @@ func (s *Sim) maybeFaults() {
 		ups := s.upHosts()
 		if len(ups) > 0 {
 			h := ups[src.Intn(len(ups))]
+			// half of the crashes land on a host that is in the middle of a file
+			// system operation (a task parked at a SimFS yield point): that is
+			// where in-flight state is
+			if src.Chance(1, 2) {
+				var mid []*Host
+				for _, t := range s.ex.Live() {
+					if t.State() == coro.Parked && strings.HasPrefix(t.Point, "fs.") && t.Host >= 0 && s.hosts[t.Host].up {
+						dup := false
+						for _, m := range mid {
+							if m.id == t.Host {
+								dup = true
+							}
+						}
+						if !dup {
+							mid = append(mid, s.hosts[t.Host])
+						}
+					}
+				}
+				if len(mid) > 0 {
+					sort.Slice(mid, func(i, j int) bool { return mid[i].id < mid[j].id })
+					h = mid[src.Intn(len(mid))]
+					s.ctx.Count("fault.crash_mid_fs_op", 1)
+				}
+			}
 			s.crashHost(h, false)
 		}
 	}
